@@ -50,7 +50,11 @@ func decorated(o *Opnd, kind int) *Dec {
 
 func cmpValues(tier string) []*cmpVal {
 	var os []*Opnd
-	os = append(os, DVals(2, 2, true, 34, 0)...)
+	if tier == "thorough" {
+		os = append(os, DVals(3, 1, true, 34, 0)...)
+	} else {
+		os = append(os, DVals(2, 2, true, 34, 0)...)
+	}
 	for _, v := range WVecs(3, S7) {
 		os = append(os, mkWords(false, v, 0, 0, 0), mkWords(true, v, 0, 0, 0))
 		// same value with an extra low zero word (longer mantissa, equal value)
